@@ -1,3 +1,5 @@
+#[path = "../inputs.rs"]
+mod inputs;
 fn main() {
-    chumsky_verif_harness::inputs::main();
+    inputs::main();
 }
